@@ -308,7 +308,7 @@ func (m c20) run(c *Ctx, sh c20shape, r *RNG) {
 				c.Violate("rejected-but-wrap-accepts", "Check says %q but Wrap(%s) returned a wrapper (%v) for %s", checkErr, how, w != nil, desc)
 				return
 			}
-			if !strings.Contains(pi.Val, "invalid struct") && !strings.Contains(pi.Val, "pointer to a struct") {
+			if pi.Runtime { // a deliberate panic(...) is how Wrap refuses; a runtime error is a crash
 				c.Violate("rejected-but-wrap-crashes/"+panicClass(pi.Val), "Check says %q; Wrap(%s) did not refuse but crashed: %s on %s", checkErr, how, pi, desc)
 				return
 			}
